@@ -346,11 +346,15 @@ func (d *vdTapeDec) push(in pushDecoder) error {
 	switch x := in.(type) {
 	case *lengthField:
 		p.Kind = "len32"
+		// the extent a length field delimits is known from its own value (do not depend on the decoder under test
+		// popping it: a decoder that forgets the pop is exactly what must be noticed)
+		p.End = p.HdrEnd + int(x.length)
 	case *crc32Field:
 		p.Kind = "crc"
 		p.Poly = x.polynomial
 	case *varintLengthField:
 		p.Kind = "varlen"
+		p.End = p.HdrEnd + int(x.length)
 	default:
 		p.Kind = fmt.Sprintf("%T", in)
 	}
@@ -364,7 +368,7 @@ func (d *vdTapeDec) pop() error {
 	if d.tp != nil && len(d.stack) > 0 {
 		i := d.stack[len(d.stack)-1]
 		d.stack = d.stack[:len(d.stack)-1]
-		if err == nil {
+		if err == nil && (d.tp.pushes[i].Kind == "crc" || d.tp.pushes[i].End < 0) {
 			d.tp.pushes[i].End = d.base + d.rd.off
 		}
 	}
@@ -374,16 +378,17 @@ func (d *vdTapeDec) pop() error {
 // ---------------------------------------------------------------- mutations
 
 type vdCase struct {
-	Kind   string `json:"kind"` // cell | flip | crcflip | trunc | rand | valid
-	Trig   string `json:"trig"` // trigger class
-	Prim   string `json:"prim"`
-	Caller string `json:"caller"`
-	Fix    bool   `json:"fix"` // enclosing CRC / length fields recomputed (a consistent adversary)
-	Pos    int    `json:"pos"`
-	Dmg    bool   `json:"dmg"`    // alters a checksummed extent, or a length now disagrees with the data
-	Strict bool   `json:"strict"` // everything is consistent (CRCs, enclosing lengths) except ONE length/count, or junk trails inside an extent
-	RunVer int    `json:"runver"` // >= 0: decode with this version instead of the one the bytes were written in
-	inner  []byte
+	Kind     string `json:"kind"` // cell | flip | crcflip | trunc | rand | valid
+	Trig     string `json:"trig"` // trigger class
+	Prim     string `json:"prim"`
+	Caller   string `json:"caller"`
+	Fix      bool   `json:"fix"` // enclosing CRC / length fields recomputed (a consistent adversary)
+	Pos      int    `json:"pos"`
+	Dmg      bool   `json:"dmg"`      // alters a checksummed extent, or a length now disagrees with the data
+	Strict   bool   `json:"strict"`   // everything is consistent (CRCs, enclosing lengths) except ONE length/count, or junk trails inside an extent
+	MustFail bool   `json:"mustfail"` // a push/pop-verified length or CRC field is wrong (all else consistent): must be reported
+	RunVer   int    `json:"runver"`   // >= 0: decode with this version instead of the one the bytes were written in
+	inner    []byte
 }
 
 var vdOverflowVarint = []byte{0x80, 0x80, 0x80, 0x80, 0x80, 0x80, 0x80, 0x80, 0x80, 0x7f}
@@ -602,29 +607,63 @@ func vdConsistentCases(s *vdSubject, tp *vdTape, add func(vdCase)) {
 			add(vdCase{Kind: "offby1", Trig: trig, Prim: c.Prim, Caller: c.Caller, Fix: true, Strict: true, Pos: c.Off, inner: b})
 		}
 	}
+	// every push/pop-verified field (block length, record length, CRC), at every nesting level, is damaged on its
+	// own while everything AROUND it is recomputed: the decoder must report it (MustFail) - the only tolerated
+	// outcomes are the ones the code documents (ErrInsufficientData on a trailing block = flagged partial;
+	// whole trailing batches of a fetch block dropped)
 	for _, p := range tp.pushes {
-		if p.End < 0 || (p.Kind != "len32" && p.Kind != "varlen") {
+		if p.End < 0 || p.End > len(valid) || p.End < p.HdrEnd {
 			continue
 		}
-		orig := int64(p.End - p.HdrEnd)
-		for _, d := range []int64{-1, 1} {
-			if orig+d < 0 {
-				continue
+		w := p.HdrEnd - p.Start
+		type dv struct {
+			trig string
+			enc  []byte
+		}
+		var vals []dv
+		switch p.Kind {
+		case "len32", "varlen":
+			orig := int64(p.End - p.HdrEnd)
+			cand := []struct {
+				trig string
+				v    int64
+			}{{"len=orig-1", orig - 1}, {"len=orig+1", orig + 1}, {"len=0", 0}, {"len=-1", -1}, {"len=minint32", math.MinInt32},
+				{"len=orig/2", orig / 2}, {"len=orig*2", orig * 2}}
+			for k, al := range s.altLens {
+				cand = append(cand, struct {
+					trig string
+					v    int64
+				}{fmt.Sprintf("len=alt%d", k), int64(al)})
 			}
-			var enc []byte
-			if p.Kind == "len32" {
-				enc = vdI32(int(orig + d))
-			} else {
-				enc = vdVar(orig + d)
+			for _, c := range cand {
+				if c.v == orig {
+					continue
+				}
+				if p.Kind == "len32" {
+					vals = append(vals, dv{c.trig, vdI32(int(c.v))})
+				} else {
+					vals = append(vals, dv{c.trig, vdVar(c.v)})
+				}
 			}
-			w := p.HdrEnd - p.Start
-			b := vdSplice(valid, p.Start, w, enc)
-			b = vdRefit(tp, b, p.Start, len(enc)-w, -1)
-			trig := "len=orig+1"
-			if d < 0 {
-				trig = "len=orig-1"
+		case "crc":
+			cur := binary.BigEndian.Uint32(valid[p.Start:])
+			for _, c := range []struct {
+				trig string
+				v    uint32
+			}{{"crc^1", cur ^ 1}, {"crc^msb", cur ^ 0x80000000}, {"crc=0", 0}, {"crc=other-poly", vdCrcOf(1-p.Poly, valid[p.Start+4:p.End])}} {
+				if c.v != cur {
+					e := make([]byte, 4)
+					binary.BigEndian.PutUint32(e, c.v)
+					vals = append(vals, dv{c.trig, e})
+				}
 			}
-			add(vdCase{Kind: "offby1", Trig: trig, Prim: "push:" + p.Kind, Caller: "-", Fix: true, Strict: true, Pos: p.Start, inner: b})
+		default:
+			continue
+		}
+		for _, v := range vals {
+			b := vdSplice(valid, p.Start, w, v.enc)
+			b = vdRefit(tp, b, p.Start, len(v.enc)-w, -1)
+			add(vdCase{Kind: "pushdmg", Trig: v.trig, Prim: "push:" + p.Kind, Caller: "-", Fix: true, MustFail: true, Pos: p.Start, inner: b})
 		}
 	}
 	// (b) junk
